@@ -307,12 +307,18 @@ Proof.
   pose proof (commit_migrate_inv c m ok HI) as H. destruct (commit_migrate c m ok). exact H.
 Qed.
 
+Lemma migrate_next_inv c p g t os : Inv c -> Inv (fst (fst (migrate_next c p g t os))).
+Proof.
+  intros HI. unfold migrate_next. destruct (plan_migrate c p g t) as [e|m]; cbn [fst]; auto.
+  destruct (next_outcome os) as [o os'].
+  pose proof (commit_migrate_inv c m o HI) as H. destruct (commit_migrate c m o). exact H.
+Qed.
+
 Lemma evacuate_inv word w aff : forall c os, Inv c -> Inv (fst (evacuate c word w aff os)).
 Proof.
   induction aff as [|[g p] r IH]; intros c os HI; cbn [evacuate fst]; auto.
   destruct (failover_target c word w) as [t|].
-  - destruct (next_outcome os) as [o os'].
-    pose proof (migrate_inv c p g t o HI) as H1. destruct (migrate c p g t o) as [c1 res1]. cbn [fst] in H1.
+  - pose proof (migrate_next_inv c p g t os HI) as H1. destruct (migrate_next c p g t os) as [[c1 b] os']. cbn [fst] in H1.
     specialize (IH c1 os' H1). destruct (evacuate c1 word w r os'). exact IH.
   - specialize (IH c os HI). destruct (evacuate c word w r os). exact IH.
 Qed.
@@ -320,8 +326,7 @@ Qed.
 Lemma run_migrations_inv ms : forall c os, Inv c -> Inv (fst (run_migrations c ms os)).
 Proof.
   induction ms as [|[[g p] t] r IH]; intros c os HI; cbn [run_migrations fst]; auto.
-  destruct (next_outcome os) as [o os'].
-  pose proof (migrate_inv c p g t o HI) as H1. destruct (migrate c p g t o) as [c1 res1]. cbn [fst] in H1.
+  pose proof (migrate_next_inv c p g t os HI) as H1. destruct (migrate_next c p g t os) as [[c1 b] os']. cbn [fst] in H1.
   specialize (IH c1 os' H1). destruct (run_migrations c1 r os'). exact IH.
 Qed.
 
